@@ -287,10 +287,12 @@ Fixpoint uexpr_dom (f : ref -> bool) (e : uexpr) : bool :=
 Definition kind_of_how (how : string) : jkind :=
   match spark_kind how with Some JCross => JInner | Some k => k | None => JInner end.
 
-Definition step_dom (s : st) (R : frame) (rbase : nat) (octes : list cmeta) (on : onform) (how : string) (same_branch : bool) : bool :=
+Definition step_dom (s : st) (R : frame) (rbase : nat) (octes : list cmeta) (on : onform) (how : string) (same_branch : bool)
+  (stale : option nat) : bool :=
   let k := kind_of_how how in
   let has_joins := negb (Nat.eqb (List.length (s_tabs s)) 1) in
   let out' := s_sel s ++ map (fun n => (ECol (qn (List.length (s_tabs s)) n), n)) (cols R) in
+  match stale with None => true | Some _ => false end &&
   smem how documented && nodupb (cols R) && negb (jkind_eqb k JRight) &&
   match on with
   | OnNone => smem how ["inner"; "cross"] && forallb (complete s) (cols R)
@@ -333,10 +335,10 @@ Proof.
 Qed.
 
 (** * ON conditions: references that denote their table resolve as PySpark resolves them *)
-Lemma on_ref_ok ctes octes hj nt sb tcs' r :
+Lemma on_ref_ok ctes octes hj nt sb tcs' ot r :
   ref_dom ctes octes hj sb r = true ->
   match r with
-  | RDf t _ _ n | RAlias t _ n => norm_on_ref ctes octes hj nt sb tcs' r = RQ t n
+  | RDf t _ _ n | RAlias t _ n => norm_on_ref ctes octes hj nt sb tcs' ot r = RQ t n
   | RName _ => False
   end.
 Proof.
@@ -370,13 +372,13 @@ Proof.
       apply Nat.eqb_eq in H. subst. reflexivity.
 Qed.
 
-Lemma on_uexpr_ok ctes octes hj nt sb tcs' valid out e :
+Lemma on_uexpr_ok ctes octes hj nt sb tcs' ot valid out e :
   uexpr_dom (fun r => ref_dom ctes octes hj sb r && valid r) e = true ->
-  resolve_uexpr (norm_on_ref ctes octes hj nt sb tcs') e = sp_uexpr valid out e.
+  resolve_uexpr (norm_on_ref ctes octes hj nt sb tcs' ot) e = sp_uexpr valid out e.
 Proof.
   induction e as [r|v|o a IHa b IHb|a IHa|a IHa]; simpl; intro H.
   - apply andb_true_iff in H. destruct H as [H Hv]. rewrite Hv.
-    assert (H' := on_ref_ok ctes octes hj nt sb tcs' r H).
+    assert (H' := on_ref_ok ctes octes hj nt sb tcs' ot r H).
     destruct r as [n|t b uo n|t sq n]; [contradiction| |]; rewrite H'; reflexivity.
   - reflexivity.
   - apply andb_true_iff in H. destruct H as [H1 H2]. rewrite IHa, IHb by assumption. reflexivity.
@@ -623,10 +625,10 @@ Proof.
 Qed.
 
 (** * one join step *)
-Theorem join_step_ok c s R rbase octes on how sb :
+Theorem join_step_ok c s R rbase octes on how sb stale :
   cfg_how_ok c = true -> cfg_none_ok c = true ->
-  inv s = true -> step_dom s R rbase octes on how sb = true ->
-  exists s', m_join c s R rbase octes on how sb = Some s'
+  inv s = true -> step_dom s R rbase octes on how sb stale = true ->
+  exists s', m_join c s R rbase octes on how sb stale = Some s'
     /\ sp_join (sp_of s) R rbase on how = Some (sp_of s')
     /\ (keeps_inv on how = true -> inv s' = true).
 Proof.
@@ -638,7 +640,9 @@ Proof.
   unfold step_dom in Hdom.
   apply andb_true_iff in Hdom. destruct Hdom as [Hdom Hon].
   apply andb_true_iff in Hdom. destruct Hdom as [Hdom Hnr]. apply negb_true_iff in Hnr.
-  apply andb_true_iff in Hdom. destruct Hdom as [Hdoc Hnd].
+  apply andb_true_iff in Hdom. destruct Hdom as [Hdom Hnd].
+  apply andb_true_iff in Hdom. destruct Hdom as [Hst Hdoc].
+  destruct stale as [st0|]; [discriminate|]. clear Hst.
   destruct (documented_kind c how Hcfg Hdoc) as [k0 [Hk0 Hflags]].
   assert (Hkind : kind_of_how how = match k0 with JCross => JInner | _ => k0 end).
   { unfold kind_of_how. rewrite Hk0. destruct k0; reflexivity. }
@@ -723,7 +727,7 @@ Proof.
     set (out' := s_sel s ++ map (fun n => (ECol (qn j n), n)) (cols R)) in *.
     set (valid := ref_valid (s_tabs s ++ [R]) (s_bases s ++ [rbase]) out') in *.
     assert (Hes :
-      map_opt (resolve_uexpr (norm_on_ref (s_ctes s) octes (negb (Nat.eqb j 1)) j sb (indexed (s_tabs s ++ [R])))) es
+      map_opt (resolve_uexpr (norm_on_ref (s_ctes s) octes (negb (Nat.eqb j 1)) j sb (indexed (s_tabs s ++ [R])) j)) es
       = map_opt (sp_uexpr valid out') es).
     { apply map_opt_ext_in. intros e He. apply on_uexpr_ok. apply Hrefs. exact He. }
     (* the conditions resolve (no bare names): the result of map_opt is Some *)
@@ -762,7 +766,7 @@ Qed.
 
 (** * chains of joins, by induction *)
 Definition jstep_dom (s : st) (x : jstep) : bool :=
-  step_dom s (j_right x) (j_base x) (j_octes x) (j_on x) (j_how x) (j_same_branch x).
+  step_dom s (j_right x) (j_base x) (j_octes x) (j_on x) (j_how x) (j_same_branch x) (j_stale x).
 
 (** the domain of a chain is checked along the run: every step in [step_dom] of the state it starts from, and every
     step but the last one leaves a canonical list behind *)
@@ -774,7 +778,7 @@ Fixpoint chain_dom (c : howcfg) (s : st) (steps : list jstep) : bool :=
       match r with
       | [] => true
       | _ => keeps_inv (j_on x) (j_how x) &&
-             match m_join c s (j_right x) (j_base x) (j_octes x) (j_on x) (j_how x) (j_same_branch x) with
+             match m_join c s (j_right x) (j_base x) (j_octes x) (j_on x) (j_how x) (j_same_branch x) (j_stale x) with
              | Some s' => chain_dom c s' r
              | None => false
              end
@@ -791,7 +795,7 @@ Proof.
   intros Hc Hn. induction steps as [|x r IH]; intros s Hinv Hd.
   - exists s. repeat split; auto.
   - simpl in Hd. apply andb_true_iff in Hd. destruct Hd as [Hx Hr].
-    destruct (join_step_ok c s _ _ _ _ _ _ Hc Hn Hinv Hx) as [s1 [M1 [S1 I1]]].
+    destruct (join_step_ok c s _ _ _ _ _ _ _ Hc Hn Hinv Hx) as [s1 [M1 [S1 I1]]].
     simpl. rewrite M1, S1.
     destruct r as [|y r'].
     + exists s1. repeat split; try reflexivity. intro Hk. apply I1.
@@ -848,8 +852,8 @@ Proof.
   rewrite filter_true by reflexivity. reflexivity.
 Qed.
 
-Lemma m_join_shape c s R rbase octes on how sb s' :
-  m_join c s R rbase octes on how sb = Some s' ->
+Lemma m_join_shape c s R rbase octes on how sb stale s' :
+  m_join c s R rbase octes on how sb stale = Some s' ->
   s_tabs s' = s_tabs s ++ [R] /\ s_where s' = s_where s /\ exists k cond, s_joins s' = s_joins s ++ [(k, cond)].
 Proof.
   unfold m_join. intro E.
@@ -877,8 +881,8 @@ Proof.
   assert (Hcd : chain_dom c (init_st L lbase lctes) [x] = true) by (simpl; rewrite Hd; reflexivity).
   split; [apply run_chain_ok; assumption|].
   intros fr Hfr. unfold m_run in Hfr. cbn [m_chain] in Hfr.
-  destruct (m_join c (init_st L lbase lctes) (j_right x) (j_base x) (j_octes x) (j_on x) (j_how x) (j_same_branch x)) as [s'|] eqn:E; [|discriminate].
-  destruct (m_join_shape _ _ _ _ _ _ _ _ _ E) as [T [W [k [cond J]]]].
+  destruct (m_join c (init_st L lbase lctes) (j_right x) (j_base x) (j_octes x) (j_on x) (j_how x) (j_same_branch x) (j_stale x)) as [s'|] eqn:E; [|discriminate].
+  destruct (m_join_shape _ _ _ _ _ _ _ _ _ _ E) as [T [W [k [cond J]]]].
   cbn [m_fin] in Hfr. unfold eval_st in Hfr. rewrite T, W, J in Hfr. cbn [init_st s_tabs s_joins s_where app] in Hfr.
   exists k, cond, (s_sel s').
   destruct (single_join_rows _ _ _ _ _ _ Hfr) as [H1 H2]. rewrite !map_length in H2. split; assumption.
@@ -1085,6 +1089,7 @@ Proof. apply map_ext_in. Qed.
 Definition right_dom (L : frame) (lbase : nat) (lctes : list cmeta) (x : jstep) : bool :=
   let R := j_right x in
   let out' := init_sel (cols L) ++ map (fun n => (ECol (qn 1 n), n)) (cols R) in
+  match j_stale x with None => true | Some _ => false end &&
   smem (j_how x) documented && jkind_eqb (kind_of_how (j_how x)) JRight && nodupb (cols L) && nodupb (cols R) &&
   match j_on x with
   | OnNone => false
@@ -1121,11 +1126,13 @@ Theorem right_join_first_ok c : cfg_how_ok c = true ->
     right_dom L lbase lctes x = true ->
     m_run c L lbase lctes [x] FNone = sp_run L lbase [x] FNone.
 Proof.
-  intros Hcfg L lbase lctes [R rbase octes on how sb] Hd. unfold right_dom in Hd. cbn [j_right j_how j_on j_octes j_same_branch j_base] in Hd.
+  intros Hcfg L lbase lctes [R rbase octes on how sb stale] Hd. unfold right_dom in Hd. cbn [j_right j_how j_on j_octes j_same_branch j_base j_stale] in Hd.
   apply andb_true_iff in Hd. destruct Hd as [Hd Hon].
   apply andb_true_iff in Hd. destruct Hd as [Hd HndR].
   apply andb_true_iff in Hd. destruct Hd as [Hd HndL].
-  apply andb_true_iff in Hd. destruct Hd as [Hdoc Hk].
+  apply andb_true_iff in Hd. destruct Hd as [Hd Hk].
+  apply andb_true_iff in Hd. destruct Hd as [Hst Hdoc].
+  destruct stale as [st0|]; [discriminate|]. clear Hst.
   destruct (documented_kind c how Hcfg Hdoc) as [k0 [Hk0 Hflags]].
   assert (Hkind : kind_of_how how = match k0 with JCross => JInner | _ => k0 end).
   { unfold kind_of_how. rewrite Hk0. destruct k0; reflexivity. }
@@ -1135,7 +1142,7 @@ Proof.
   set (lc := cols L) in *. set (rc := cols R) in *.
   assert (Hord : order_of true [L; R] = [(1%nat, rc); (0%nat, lc)]) by reflexivity.
   assert (Hidx : indexed [L] = [(0%nat, lc)]) by reflexivity.
-  unfold m_run, sp_run. cbn [m_chain sp_chain j_right j_how j_on j_octes j_same_branch j_base].
+  unfold m_run, sp_run. cbn [m_chain sp_chain j_right j_how j_on j_octes j_same_branch j_base j_stale].
   destruct on as [|ks|es]; [discriminate| |].
   - (* names *)
     apply andb_true_iff in Hon. destruct Hon as [Hon Hcol].
@@ -1214,7 +1221,7 @@ Proof.
     set (out' := init_sel lc ++ map (fun n => (ECol (qn 1 n), n)) rc) in *.
     set (valid := ref_valid [L; R] [lbase; rbase] out') in *.
     assert (Hes :
-      map_opt (resolve_uexpr (norm_on_ref lctes octes false 1 sb (indexed [L; R]))) es = map_opt (sp_uexpr valid out') es).
+      map_opt (resolve_uexpr (norm_on_ref lctes octes false 1 sb (indexed [L; R]) 1)) es = map_opt (sp_uexpr valid out') es).
     { apply map_opt_ext_in. intros e He. apply on_uexpr_ok. apply Hrefs. exact He. }
     unfold m_join. cbn match. rewrite Fk, Fcr, Flo, Fri.
     cbn [init_st s_tabs s_sel s_ctes s_joins s_where s_bases s_first_right List.length Nat.eqb negb app].
